@@ -16,6 +16,8 @@ ops (slots are small integers; values are JSON numbers that are exactly represen
   ["union", nb, b1, b2] ["inter", nb, b1, b2] ["do_intersect", b1, b2] ["is_empty", b] ["span", b] ["center", b]
   ["fn", name, [s...], which|null, [scalars...], reps?]  vector / angle primitive on caller arrays
   ["unit_cube", nb, dim, centered] ["infinite", nb, dim] ["of_mesh", nb, [s...], pad] ["normalize", s, which]
+  ["vec_ctor", name, n, sa, sb]        Vec.<name>(...) called twice with the same arguments; results -> caller arrays sa, sb
+  ["setcomp", s, i, x]                 the caller writes arrs[s][i] = x
 A representation code says how a caller array is handed to the function: "a" the ndarray itself, "v" a Vec view
 of it, "l" a list, "t" a tuple, "c" a complex number (2-D only).  "fn" takes one code per argument; "box",
 "contains", "project", "distance", "pad_v", "ofpts" take them as an optional trailing string.
@@ -209,6 +211,11 @@ def run_prog(prog):
                                 al.append("box%d.%s~box%d.%s" % (k, fld, k2, fld2))
             if np.shares_memory(b._p1, b._p2):
                 al.append("box%d.mini~box%d.maxi" % (k, k))
+        sl = sorted(arrs.items())
+        for x, (s1, a1_) in enumerate(sl):
+            for s2, a2_ in sl[x + 1:]:
+                if np.shares_memory(a1_, a2_):
+                    al.append("arr%d~arr%d" % (s1, s2))
         return al
 
     for op in prog["ops"]:
@@ -216,6 +223,14 @@ def run_prog(prog):
         if kind == "arr":
             arrs[op[1]] = np.array(op[2], dtype=float if op[3] == "f" else int)
             out.append({"r": ["none"], "exc": None, "err_same": True, "arrchg": [], "boxchg": [], "alias": aliases()})
+            continue
+        if kind == "setcomp":
+            a0, b0 = snap()
+            arrs[op[1]][int(op[2])] = op[3]
+            a1, b1 = snap()
+            out.append({"r": ["none"], "exc": None, "err_same": True,
+                        "arrchg": [[k, a1[k][2]] for k in sorted(a0, key=str) if a0[k] != a1.get(k)],
+                        "boxchg": [[k, b1[k][0], b1[k][1]] for k in sorted(b0) if b0[k] != b1[k]], "alias": aliases()})
             continue
         if kind == "seterr":
             d, o_, u, i = op[1]
@@ -252,8 +267,19 @@ def run_prog(prog):
                 elif kind == "unit_cube":
                     newbox = (op[1], AABB.unit_cube(int(op[2]), bool(op[3])))
                 elif kind == "infinite":
-                    bb = AABB.infinite(int(op[2]))
-                    r = ["box", canon_vec(bb.mini), canon_vec(bb.maxi)]
+                    newbox = (op[1], AABB.infinite(int(op[2])))
+                elif kind == "vec_ctor":
+                    def mk():
+                        if op[1] == "zeros":
+                            return Vec.zeros(int(op[2]))
+                        if op[1] == "random":
+                            return Vec.random(int(op[2]))
+                        return getattr(Vec, op[1])()
+                    v1, v2 = mk(), mk()
+                    arrs[op[3]], arrs[op[4]] = v1, v2
+                    ids0[op[3]], ids0[op[4]] = id(v1), id(v2)
+                    a0, b0 = snap()
+                    r = ["vs", [canon_vec(v1), canon_vec(v2)]]
                 elif kind == "of_mesh":
                     import mouette as M
                     mesh = M.mesh.from_arrays(np.array([arrs[s] for s in op[2]], dtype=float))
